@@ -3,7 +3,7 @@ multi-step situations each clause is about, executed in every tier in addition
 to TLC-generated behaviours and random scenarios."""
 
 BASE = dict(lockAfter=2, lockWindow=2, lockDuration=2, expireAfter=2, recoverTTL=2, recoverLogin=False, emailAuth=False,
-            totpOneTime=False, whitelist=[], logoutMethod='DELETE', mwReqs=0, mwFail='404', errWrites=False, json=False, mailGo=False)
+            totpOneTime=False, whitelist=[], logoutMethod='DELETE', mwReqs=0, mwFail='404', errWrites=False, json=False, mailGo=False, foldPid=False)
 E0 = dict(act='none', b='none', pid='none', pw=0, tok=0, rm=False, valid=True, d=0, method='none', code=0, rc=0, g=0,
           kind='none', prov='none', outcome='none', phone=0, redir='none', k='none')
 
